@@ -7,8 +7,14 @@ import (
 	"verif/checker/internal/load"
 )
 
+var dumpers = map[string]func(*core.Ctx){}
+
 // Dump prints debugging views.
 func Dump(c *core.Ctx, what string) {
+	if f, ok := dumpers[what]; ok {
+		f(c)
+		return
+	}
 	switch what {
 	case "census":
 		cs := GetCensus(c)
@@ -21,5 +27,24 @@ func Dump(c *core.Ctx, what string) {
 			fmt.Printf("  %-12s key=%s ok=%v fn=%s at %s\n", r.Kind, r.KeyName(), r.KeyOK, load.FnName(r.Fn), c.P.Pos(r.Site.Pos()))
 		}
 		fmt.Printf("%d migrations, %d special printers\n", len(cs.Migs), len(cs.Specials))
+	}
+}
+
+func init() {
+	dumpers["shapes"] = func(c *core.Ctx) {
+		cs := GetCensus(c)
+		sh := GetShapes(c)
+		for _, et := range cs.ErrTypes {
+			s := sh[et.Named]
+			fmt.Printf("%-36s %s", et.Name(), s)
+			if s.ErrWhy != "" || s.CauseWhy != "" {
+				fmt.Printf("  !! %s %s", s.ErrWhy, s.CauseWhy)
+			}
+			var df []string
+			for f := range s.DetailFields {
+				df = append(df, f.Name())
+			}
+			fmt.Printf(" detailFields=%v\n", df)
+		}
 	}
 }
